@@ -212,12 +212,22 @@ func frontJudge(c *Ctx, cs *Case, wantTree bool) bool {
 	if CheckAbnormal(c, o) {
 		return false
 	}
-	if o.Stdout != "" || o.Steps > 0 {
+	if v.OOD == "" && (o.Stdout != "" || o.Steps > 0) {
 		c.Violate(Violation{Why: fmt.Sprintf("part of a rejected text was executed (%d evaluation steps, stdout %q)", o.Steps, trunc(o.Stdout, 80)), Observed: describeObs(o), Signature: "rejected-text-ran"})
 		return false
 	}
 	diags := ParseDiags(o.Stderr)
 	if v.OOD != "" {
+		if o.Accepted {
+			// the implementation accepts this out-of-domain text and ran it: nothing to judge
+			c.Count("skipped_out_of_domain", 1)
+			c.Count("ood:"+oodClass(v.OOD), 1)
+			return false
+		}
+		if o.Stdout != "" || o.Steps > 0 {
+			c.Violate(Violation{Why: "a text the implementation itself rejected was partly executed", Observed: describeObs(o), Signature: "rejected-text-ran"})
+			return false
+		}
 		c.Count("skipped_out_of_domain", 1)
 		c.Count("ood:"+oodClass(v.OOD), 1)
 		// whatever the classification, diagnostics must name lines inside the text
